@@ -16,6 +16,8 @@ SCRIPTS = [
     ("insert into b select * from a; rename table b to c, c to d", "mysql"),
     ("alter table a rename to b; insert into c select * from b; drop table z", None),
     ("with c1 as (select a, b from s), c2 as (select a from c1) insert into t select c2.a, c1.b from c2 join c1 on c2.a = c1.a", None),
+    # repaired D12: SELECT * over a join whose tables share a column name, with metadata
+    ("insert into db.o select * from db.a join db.b on a.id = b.id", {"db.a": ["id", "x"], "db.b": ["id", "y"]}),
 ]
 KNOWN_D12 = ("insert into db.o select * from db.a join db.b on a.id = b.id", {"db.a": ["id", "x"], "db.b": ["id", "y"]})
 
